@@ -44,7 +44,8 @@ Inductive op :=
 (* one output per op: Enter -> 0; Leave -> 1/0 (returned bool); Add/Fresh -> the new id;
    Use/Find -> the id given to the token, 0 = none (cppcheck's own convention) *)
 
-(* leaveScope(): for (outer : top) if (outer.id != 0) map[name] = outer; else map.erase(name); *)
+(* leaveScope(): for (it = top.crbegin(); it != top.crend(); ++it) if (it->id != 0) map[name] = *it; else map.erase(name);
+   (reverse order since /repo f35544d) *)
 Definition restore (m : amap) (e : str * vinfo) : amap :=
   if vid (snd e) =? 0 then aerase (fst e) m else aset (fst e) (snd e) m.
 
@@ -54,7 +55,7 @@ Definition vm_step (s : vm) (o : op) : vm * N :=
   | Leave =>
       match log s with
       | [] => (s, 0)
-      | fr :: rest => (mkVm (fold_left restore fr (cur s)) (glob s) rest (next s), 1)
+      | fr :: rest => (mkVm (fold_right (fun e m => restore m e) (cur s) fr) (glob s) rest (next s), 1)
       end
   | Add n g =>
       let id := next s + 1 in
@@ -147,8 +148,8 @@ Fixpoint sp_run (s : sp) (ops : list op) : sp * list N :=
 
 Definition run_sp (ops : list op) : list N := snd (sp_run sp0 ops).
 
-(* hypotheses of the refinement, evaluated along the specification's own run *)
-(* (1) no name is declared twice inside one open frame *)
+(* side conditions evaluated along the specification's own run *)
+(* (1) no name is declared twice inside one open frame (needed by the refinement only before /repo f35544d; still measured) *)
 Definition redecl_free_step (s : sp) (o : op) : bool :=
   match o, sframes s with
   | Add n _, f :: _ => match ffind n f with None => true | Some _ => false end
